@@ -10,6 +10,10 @@ def parse(path):
         if not l: continue
         rows.append(l)
     return rows
+import sys, io
+_embed = '--embed' in sys.argv
+if _embed:
+    _buf = io.StringIO(); _real = sys.stdout; sys.stdout = _buf
 print("#### Planted mutants (tools/run_mutants.sh; quick tier, scale 0.3 unless noted)\n")
 print("| check | mutant | result | first signature |")
 print("|---|---|---|---|")
@@ -39,6 +43,25 @@ for d in sorted(glob.glob(f'{ROOT}/seeded/C*')):
     sid=os.path.basename(d)
     try: m=json.load(open(f'{d}/meta.json'))
     except Exception: continue
-    s=m.get('summary','').replace('|','/')[:260]
-    n=m.get('needs_to_manifest','').replace('|','/')[:220]
+    s=m.get('summary','').replace('|','/').replace('\n',' ')[:200]
+    n=m.get('needs_to_manifest','').replace('|','/').replace('\n',' ')[:160]
     print(f"| {sid} | {s} | {n} | {'; '.join(res.get(sid,['(not run)']))} |")
+
+print("\n#### Results before the strengthening they triggered (seeded/PRE.txt; harness snapshot of the commit before)\n")
+print("| patch | check | result |")
+print("|---|---|---|")
+for l in parse(f'{ROOT}/seeded/PRE.txt'):
+    m=re.match(r'\S+ PRE-STRENGTHENING(\(round3\))? check=(\S+) patch=(\S+) (\S*)\s*(.*)',l)
+    if not m: continue
+    _,chk,patch,rc,rest=m.groups()
+    sid=re.sub(r'.*/seed-(C\d+)/SEED_OUT(\d*)/patch.diff', lambda k: k.group(1)+('-'+k.group(2) if k.group(2) else ''), patch)
+    sig=re.findall(r'failure in \S+ (\S+?);',rest)
+    r={'MUTANT-EXIT=1':'caught','MUTANT-EXIT=0':'not caught','MUTANT-EXIT=2':'exit 2 (inconclusive: coverage floor)'}.get(rc,rc or '?')
+    print(f"| {sid} | {chk} | {r}"+(f" (`{sig[0]}`)" if sig else '')+" |")
+if _embed:
+    sys.stdout = _real
+    d=open(f'{ROOT}/DESIGN.md').read()
+    a=d.index('<!-- TABLES:BEGIN -->')+len('<!-- TABLES:BEGIN -->'); b=d.index('<!-- TABLES:END -->')
+    d=d[:a]+"\n\n"+_buf.getvalue()+"\n"+d[b:]
+    open(f'{ROOT}/DESIGN.md','w').write(d)
+    print("tables embedded in DESIGN.md")
